@@ -508,7 +508,7 @@ package rac
 //@ func (*Reader).initialize
 //@   prop C14
 //@   requires rOK(r)
-//@   ensures rOK(r) && unchanged(r.pos) && unchanged(r.Concurrency) && implies(result == nil, r.chunkReader.initialized && r.chunkReader.err == nil)
+//@   ensures rOK(r) && unchanged(r.pos) && unchanged(r.Concurrency) && implies(result == nil, r.chunkReader.initialized && r.chunkReader.err == nil && r.err == nil)
 //@   ensures[idle] implies(old(r.Concurrency) <= 1, unchanged(r.concReader.stopc))
 //@   ensures[frame] unchanged(r.dRange[0]) && unchanged(r.dRange[1]) && unchanged(r.decompressor) && unchanged(r.inImplicitZeroes) && unchanged(r.chunkReader.seekPosition) && unchanged(r.CodecReaders) && unchanged(mem(r.CodecReaders)) && implies(result != nil, r.err == result)
 //@   ensures[again] implies(old(r.err) == nil && old(r.chunkReader.initialized), result == nil && unchanged(r.posLimit) && unchanged(r.concReader.stopc) && unchanged(r.chunkReader.decompressedSize))
@@ -539,7 +539,7 @@ package rac
 // State C: serving the implicit zeroes after a chunk's explicit data.
 // "Invariant: r.dRange[0] <= r.pos <= r.dRange[1]"; the chunk reader's seek
 // position is the end of the current chunk; in state A the position is that end.
-//@ spec seqInv(r *Reader) bool = 0 <= r.dRange[0] && r.dRange[0] <= r.pos && r.pos <= r.dRange[1] && r.chunkReader.seekPosition == r.dRange[1] && implies(r.decompressor == nil && !r.inImplicitZeroes, r.pos == r.dRange[1]) && !(r.decompressor != nil && r.inImplicitZeroes)
+//@ spec seqInv(r *Reader) bool = implies(r.err == nil, 0 <= r.dRange[0] && r.dRange[0] <= r.pos && r.pos <= r.dRange[1] && r.chunkReader.seekPosition == r.dRange[1] && implies(r.decompressor == nil && !r.inImplicitZeroes, r.pos == r.dRange[1]) && !(r.decompressor != nil && r.inImplicitZeroes))
 
 // The CodecReader interface (assumed; obligations on codec packages).
 //@ func iface rac.CodecReader.Accepts
@@ -589,7 +589,7 @@ package rac
 //@   requires r != nil && r.decompressor != nil && !r.inImplicitZeroes && 0 <= r.dRange[0] && r.dRange[0] <= r.pos && r.pos <= r.dRange[1]
 //@   ensures 0 <= result0 && result0 <= len(p) && r.pos == old(r.pos) + int64(result0) && 0 <= r.dRange[0] && r.dRange[0] <= r.pos && r.pos <= r.dRange[1] && r.dRange[1] == old(r.dRange[1]) && !(r.decompressor != nil && r.inImplicitZeroes)
 //@   ensures[state] implies(result1 == nil, (r.decompressor != nil && !r.inImplicitZeroes) || (r.decompressor == nil && r.inImplicitZeroes))
-//@   ensures[stored] implies(result1 != nil, r.err == result1 && result1 != errInternalInconsistentPosition)
+//@   ensures[stored] implies(result1 != nil, r.err == result1 && result1 != errInternalInconsistentPosition) && implies(result1 == nil, unchanged(r.err))
 //@   modifies r.pos, r.dRange, r.err, r.decompressor, r.inImplicitZeroes, mem(p)
 //@   loop 1 invariant r.decompressor != nil && !r.inImplicitZeroes && 0 <= r.dRange[0] && r.dRange[0] <= r.pos && r.pos <= r.dRange[1] && unchanged(r.pos) && r.dRange[1] == old(r.dRange[1]) && unchanged(r.err)
 
@@ -599,8 +599,8 @@ package rac
 //@   requires rOK(r) && r.chunkReader.initialized && r.chunkReader.err == nil && r.chunkReader.seekPosition == r.pos && r.decompressor == nil && !r.inImplicitZeroes && forall(k, 0, len(r.CodecReaders), r.CodecReaders[k] != nil)
 //@   assume@after NextChunk#1 result1 != errInternalInconsistentPosition
 //@   ensures rOK(r) && unchanged(r.pos) && unchanged(r.posLimit) && unchanged(r.concReader.stopc) && unchanged(r.CodecReaders) && unchanged(mem(r.CodecReaders)) && unchanged(r.Concurrency)
-//@   ensures[stateB] implies(result == nil, r.chunkReader.initialized && r.chunkReader.err == nil && r.decompressor != nil && !r.inImplicitZeroes && 0 <= r.dRange[0] && r.dRange[0] <= r.pos && r.pos < r.dRange[1] && r.chunkReader.seekPosition == r.dRange[1])
-//@   ensures[stateA] implies(result != nil, unchanged(r.chunkReader.seekPosition) && unchanged(r.decompressor) && unchanged(r.inImplicitZeroes) && unchanged(r.dRange[0]) && unchanged(r.dRange[1]) && (result == io.EOF || r.err == result) && result != errInternalInconsistentPosition)
+//@   ensures[stateB] implies(result == nil, unchanged(r.err) && r.chunkReader.initialized && r.chunkReader.err == nil && r.decompressor != nil && !r.inImplicitZeroes && 0 <= r.dRange[0] && r.dRange[0] <= r.pos && r.pos < r.dRange[1] && r.chunkReader.seekPosition == r.dRange[1])
+//@   ensures[stateA] implies(result == io.EOF, unchanged(r.chunkReader.seekPosition) && unchanged(r.err)) && implies(result != nil, unchanged(r.decompressor) && unchanged(r.inImplicitZeroes) && unchanged(r.dRange[0]) && unchanged(r.dRange[1]) && (result == io.EOF || r.err == result) && result != errInternalInconsistentPosition)
 //@   modifies *r, mem(r.chunkReader.currNode)
 //@   loop 1 invariant -1 <= rangeindex && rangeindex < len(r.CodecReaders) && chunk.DRange[0] == atentry(1, chunk.DRange[0]) && chunk.DRange[1] == atentry(1, chunk.DRange[1])
 //@   loop 1 decreases len(r.CodecReaders) - rangeindex
@@ -623,7 +623,7 @@ package rac
 //@   ensures[limit] implies(old(r.chunkReader.initialized) && old(r.err) == nil, r.pos <= old(r.pos) || r.pos <= old(r.posLimit))
 //@   modifies *r, mem(r.chunkReader.currNode), mem(p)
 //@   assume@after initialize#1 result != errInternalInconsistentPosition
-//@   loop 1 invariant rOK(r) && seqInv(r) && isnil(r.concReader.stopc) && r.posLimit == atentry(1, r.posLimit) && r.chunkReader.initialized && r.chunkReader.err == nil && forall(k, 0, len(r.CodecReaders), r.CodecReaders[k] != nil)
+//@   loop 1 invariant r.err == nil && rOK(r) && seqInv(r) && isnil(r.concReader.stopc) && r.posLimit == atentry(1, r.posLimit) && r.chunkReader.initialized && r.chunkReader.err == nil && forall(k, 0, len(r.CodecReaders), r.CodecReaders[k] != nil)
 //@   loop 1 invariant 0 <= numRead && base(p) == old(base(p)) && off(p) == old(off(p)) + numRead && int64(numRead) + int64(len(p)) <= int64(old(len(p))) && r.pos == old(r.pos) + int64(numRead) && math(r.pos) + math(len(p)) <= math(r.posLimit) 
 
 // The concurrent reader is outside what function contracts can decide; its seek
